@@ -7,6 +7,7 @@
 import Pymodbus.Model.Framer
 import Pymodbus.Model.Exec
 import Pymodbus.Model.Codec
+import Pymodbus.Model.Control
 namespace Pymodbus
 namespace Server
 open Framer
@@ -49,28 +50,70 @@ def addsBroadcastUnit : Frontend → Bool
 def acceptedUnits (cfg : Cfg) (ctx : Units) : List Nat :=
   if cfg.broadcast && addsBroadcastUnit cfg.frontend && !(hosted ctx).contains 0 then hosted ctx ++ [0] else hosted ctx
 
-/-- apply a request to every hosted unit in turn (broadcast); a datastore failure aborts the loop, the units
-    already done keep the change -/
-def broadcastAll (r : Req) : List (Int × SlaveCtx) → List (Int × SlaveCtx)
-  | [] => []
-  | (k, s) :: rest =>
-    match Impl.execute s r with
-    | .error _ => (k, s) :: rest
-    | .ok (s', _) => (k, s') :: broadcastAll r rest
+/-- everything the server front-ends share: the unit contexts and the process-wide control block -/
+structure World where
+  units : Units
+  ctl : Control
 
-/-- the `execute(request)` callback of the handlers: new contexts and the response to send, if any -/
-def callback (cfg : Cfg) (ctx : Units) (r : Req) (uid : Nat) : Units × Option Resp :=
-  if cfg.broadcast && hasBroadcast cfg.frontend && uid == 0 then
-    -- executed on every hosted unit, never answered (a failing datastore stops the loop; nothing is sent)
-    ({ ctx with slaves := broadcastAll r ctx.slaves }, none)
+/-- the requests whose `execute` works on the datastore (FC 1-6, 15, 16, 22, 23) and `IllegalFunctionRequest` -/
+def isDataAccess : Req → Bool
+  | .readCoils .. | .readDiscrete .. | .readHolding .. | .readInput .. | .writeCoil .. | .writeRegister ..
+  | .writeCoils .. | .writeRegisters .. | .maskWrite .. | .readWrite .. | .illegalFunction .. => true
+  | _ => false
+
+/-- `request.execute(context)` for every request class; `.error` = a Python exception -/
+def execRaw (ctl : Control) (s : SlaveCtx) (r : Req) : PyM (Control × SlaveCtx × Resp) :=
+  if isDataAccess r then
+    match Impl.execute s r with
+    | .ok (s', resp) => .ok (ctl, s', resp)
+    | .error e => .error e
   else
-    match ctx.getItem uid with
+    match Impl.executeOther ctl r with
+    | .ok (ctl', resp) => .ok (ctl', s, resp)
+    | .error e => .error e
+
+/-- … under the handlers' `except Exception: response = request.doException(SlaveFailure)` -/
+def execAny (ctl : Control) (s : SlaveCtx) (r : Req) : Control × SlaveCtx × Resp :=
+  match execRaw ctl s r with
+  | .ok x => x
+  | .error _ => (ctl, s, .exception r.fc excSlaveFailure)
+
+/-- `response.should_respond`: only `ForceListenOnlyModeResponse` says no -/
+def shouldRespond : Resp → Bool
+  | .diag 4 _ => false
+  | _ => true
+
+/-- apply a request to every hosted unit in turn (broadcast); an exception aborts the loop, the units already
+    done keep the change -/
+def broadcastAll (r : Req) : Control → List (Int × SlaveCtx) → Control × List (Int × SlaveCtx)
+  | ctl, [] => (ctl, [])
+  | ctl, (k, s) :: rest =>
+    match execRaw ctl s r with
+    | .error _ => (ctl, (k, s) :: rest)
+    | .ok (ctl', s', _) =>
+      let (c, l) := broadcastAll r ctl' rest
+      (c, (k, s') :: l)
+
+/-- the `execute(request)` callback of the handlers: new world and the response to send, if any -/
+def callback (cfg : Cfg) (w : World) (r : Req) (uid : Nat) : World × Option Resp :=
+  if cfg.broadcast && hasBroadcast cfg.frontend && uid == 0 then
+    -- executed on every hosted unit, never answered (an exception stops the loop; nothing is sent)
+    let (ctl', sl') := broadcastAll r w.ctl w.units.slaves
+    ({ units := { w.units with slaves := sl' }, ctl := ctl' }, none)
+  else
+    match w.units.getItem uid with
     | .error _ =>
-      if cfg.ignoreMissing then (ctx, none) else (ctx, some (.exception r.fc excGatewayNoResponse))
+      if cfg.ignoreMissing then (w, none) else (w, some (.exception r.fc excGatewayNoResponse))
     | .ok s =>
-      let (s', resp) := Impl.serverExecute s r
-      let key : Int := if ctx.single then 0 else uid
-      ({ ctx with slaves := ServerCtx.insert ctx.slaves key s' }, some resp)
+      let (ctl', s', resp) := execAny w.ctl s r
+      let key : Int := if w.units.single then 0 else uid
+      ({ units := { w.units with slaves := ServerCtx.insert w.units.slaves key s' }, ctl := ctl' }, some resp)
+
+/-- only the Twisted protocols count the messages they send (`Counter.BusMessage += 1` in `_send`) and honour
+    listen-only mode (`if not control.ListenOnly:` around the receive call) -/
+def isTwisted : Frontend → Bool
+  | .twistedTcp | .twistedUdp => true
+  | _ => false
 
 def stepFor (k : FramerKind) : Bytes → Step
   | buf => match k with
@@ -104,56 +147,66 @@ structure Conn where
   running : Bool := true
   deriving Repr
 
+/-- `Counter.BusMessage += 1` -/
+def countMessage (cfg : Cfg) (w : World) : World :=
+  if isTwisted cfg.frontend then { w with ctl := w.ctl.setCounter 0 (w.ctl.counter 0 + 1) } else w
+
 /-- fold the deliveries of one receive call through the callback -/
-def handleEvents (cfg : Cfg) : Units → List (Ev Req) → Units × List Bytes × Option PyErr
-  | ctx, [] => (ctx, [], none)
-  | ctx, .raised e :: _ => (ctx, [], some e)
-  | ctx, .deliver r uid tid pid :: rest =>
-    let (ctx', resp) := callback cfg ctx r uid
+def handleEvents (cfg : Cfg) : World → List (Ev Req) → World × List Bytes × Option PyErr
+  | w, [] => (w, [], none)
+  | w, .raised e :: _ => (w, [], some e)
+  | w, .deliver r uid tid pid :: rest =>
+    let (w', resp) := callback cfg w r uid
     match resp with
     | none =>
-      let (c, outs, esc) := handleEvents cfg ctx' rest
+      let (c, outs, esc) := handleEvents cfg w' rest
       (c, outs, esc)
     | some rp =>
-      match frameResp cfg rp uid tid pid with
-      | .error e => (ctx', [], some e)        -- `buildPacket` raised inside the callback
-      | .ok f =>
-        let (c, outs, esc) := handleEvents cfg ctx' rest
-        (c, f :: outs, esc)
+      if !shouldRespond rp then
+        let (c, outs, esc) := handleEvents cfg w' rest
+        (c, outs, esc)
+      else
+        let w'' := countMessage cfg w'
+        match frameResp cfg rp uid tid pid with
+        | .error e => (w'', [], some e)        -- `buildPacket` raised inside the callback
+        | .ok f =>
+          let (c, outs, esc) := handleEvents cfg w'' rest
+          (c, f :: outs, esc)
 
-/-- one chunk arriving on a connection: (connection, contexts) ↦ (connection', contexts', frames written,
+/-- one chunk arriving on a connection: (connection, world) ↦ (connection', world', frames written,
     exception that escaped the front-end's entry point) -/
-def connStep (cfg : Cfg) (conn : Conn) (ctx : Units) (chunk : Bytes) : Conn × Units × List Bytes × Option PyErr :=
-  if !conn.running then (conn, ctx, [], none)
+def connStep (cfg : Cfg) (conn : Conn) (w : World) (chunk : Bytes) : Conn × World × List Bytes × Option PyErr :=
+  if !conn.running then (conn, w, [], none)
+  else if isTwisted cfg.frontend && w.ctl.listenOnly then (conn, w, [], none)   -- listen-only: the data is not even buffered
   else
-    let units := acceptedUnits cfg ctx
+    let units := acceptedUnits cfg w.units
     let (evs, buf') :=
-      if cfg.framer = .tls then tlsFeed decServer units ctx.single conn.buf chunk
-      else feed (stepFor cfg.framer) decServer units ctx.single conn.buf chunk
-    let (ctx', outs, esc) := handleEvents cfg ctx evs
+      if cfg.framer = .tls then tlsFeed decServer units w.units.single conn.buf chunk
+      else feed (stepFor cfg.framer) decServer units w.units.single conn.buf chunk
+    let (w', outs, esc) := handleEvents cfg w evs
     match esc with
     | none =>
       -- the sync UDP server builds a new handler (and framer) for every datagram
-      ({ conn with buf := if cfg.frontend = .syncUdp then [] else buf' }, ctx', outs, none)
-    | some e =>
+      ({ conn with buf := if cfg.frontend = .syncUdp then [] else buf' }, w', outs, none)
+    | some _ =>
       match cfg.frontend with
-      | .syncTcp | .aioTcp | .twistedTcp => ({ buf := [], running := false }, ctx', outs, none)   -- connection closed
-      | .syncSerial | .aioUdp | .syncUdp | .twistedUdp => ({ buf := [], running := true }, ctx', outs, none)   -- framer reset
+      | .syncTcp | .aioTcp | .twistedTcp => ({ buf := [], running := false }, w', outs, none)   -- connection closed
+      | .syncSerial | .aioUdp | .syncUdp | .twistedUdp => ({ buf := [], running := true }, w', outs, none)   -- framer reset
 
-def serve (cfg : Cfg) : Conn → Units → List Bytes → Conn × Units × List (List Bytes) × List (Option PyErr)
-  | conn, ctx, [] => (conn, ctx, [], [])
-  | conn, ctx, c :: cs =>
-    let (conn', ctx', outs, esc) := connStep cfg conn ctx c
-    let (cn, cx, os, es) := serve cfg conn' ctx' cs
+def serve (cfg : Cfg) : Conn → World → List Bytes → Conn × World × List (List Bytes) × List (Option PyErr)
+  | conn, w, [] => (conn, w, [], [])
+  | conn, w, c :: cs =>
+    let (conn', w', outs, esc) := connStep cfg conn w c
+    let (cn, cx, os, es) := serve cfg conn' w' cs
     (cn, cx, outs :: os, esc :: es)
 
-/-- several connections sharing one datastore; each step hands one chunk to one connection (every interleaving of
+/-- several connections sharing one world; each step hands one chunk to one connection (every interleaving of
     the connections' chunk sequences is such a schedule) -/
-def serveSched (cfg : Cfg) : (Nat → Conn) → Units → List (Nat × Bytes) → (Nat → Conn) × Units × List (List Bytes)
-  | conns, ctx, [] => (conns, ctx, [])
-  | conns, ctx, (i, c) :: rest =>
-    let (conn', ctx', outs, _) := connStep cfg (conns i) ctx c
-    let (cn, cx, os) := serveSched cfg (fun j => if j = i then conn' else conns j) ctx' rest
+def serveSched (cfg : Cfg) : (Nat → Conn) → World → List (Nat × Bytes) → (Nat → Conn) × World × List (List Bytes)
+  | conns, w, [] => (conns, w, [])
+  | conns, w, (i, c) :: rest =>
+    let (conn', w', outs, _) := connStep cfg (conns i) w c
+    let (cn, cx, os) := serveSched cfg (fun j => if j = i then conn' else conns j) w' rest
     (cn, cx, outs :: os)
 
 end Server
